@@ -10,7 +10,7 @@ from ..oracles import stock as S
 
 PIGGY = True  # thorough tier also runs the repository tests / howtos / examples under these monitors
 LEVEL = "exploration"
-BUDGET = {"quick": 55, "thorough": 330}
+BUDGET = {"quick": 75, "thorough": 330}
 SHARDS = {"quick": 1, "thorough": 16}
 RULE = (
     "every read of the public sf / pdf properties is judged in the wrapper: zero above the diagonal, in [0,1], non-increasing with age, "
@@ -28,12 +28,29 @@ def one(rec, hub, seed, tier, i):
     fd = hub.fd
     rng = case_nprng(seed, "c08.table", 0, i)
     model = dsm.LM_NAMES[i % 5]
-    cfg = dsm.make_config(fd, rng, tier, model=model)
+    cfg = dsm.make_config(fd, rng, tier, wide_p=0.008, model=model)
     cfg["inflow_at"] = ["start", "middle", "end"][(i // 5) % 3]
     cfg["n_pts"] = 1 if (i // 15) % 2 == 0 else 1 + (i // 30) % 10
+    if len(cfg["items"]) > 60:
+        cfg["n_pts"] = min(cfg["n_pts"], 2 if (len(cfg["items"]) > 300 or len(cfg["shape"]) > 1 and cfg["shape"][1] > 100) else 3)  # keeps the reference affordable
     if i % 7 == 3:
         cfg["param_form"] = "ndarray" if (i // 7) % 2 else "list"
-    lm = dsm.build_lm(fd, cfg)
+    late = [] if i % 4 == 1 else None
+    lm = dsm.build_lm(fd, cfg, late=late)
+    if i % 4 in (1, 2):
+        # tables asked for while the model cannot be evaluated (parameters not yet set / a setting the builder refuses): the refusal
+        # is caught by the user, the cause corrected, and the tables read then must be those of the model as it stands
+        if late is None:
+            lm.n_pts_per_interval = int(rng.choice([11, 12, 30]))
+        for a_ in rng.permutation(2)[: int(rng.integers(1, 3))]:
+            try:
+                (lambda: lm.pdf, lambda: lm.sf)[int(a_)]()
+            except Exception:
+                pass
+        if late is None:
+            lm.n_pts_per_interval = cfg["n_pts"]
+        else:
+            lm.set_prms(**late[0])
     sf = np.asarray(lm.sf)
     pdf = np.asarray(lm.pdf)
     # driver-side ground truth of the parameters (by label, independent of flodym's casting)
